@@ -178,6 +178,16 @@ func init() {
 				}
 			}()
 		}
+		if env.Replay == "" {
+			// both options switched at once, over a transport pair that can do that
+			defer enumerateServerScripts(env, enumOpts{confs: []*SConf{multiConf}, oracles: serverOracles[:1], alphabet: multiAlphabet, depth: env.Pick(3, 4)}, func(c *SCase) {
+				env.Add(wrapCase(c.Coq()), c)
+				env.Count("multi-option-transport")
+				if hasState(c, "negotiating") {
+					env.NonTrivial(c.Coq())
+				}
+			})
+		}
 		o := enumOpts{confs: confsByName("none-or-tls", "tls-first", "gzip-configured", "tls-only", "tls-handshake-fails", "tls-only-no-config", "tls-twice", "plain-only", "gzip-only", "tls-only-gzip-only", "no-enc-options"), oracles: serverOracles[:env.Pick(1, 3)], alphabet: serverAlphabet, depth: env.Pick(3, 4)}
 		return runServerProp(env, "C09", o, "Non-trivial: a negotiation stage took place.", func(c *SCase) bool { return hasState(c, "negotiating") })
 	})
